@@ -463,6 +463,57 @@ def alias_renames(prog):
     if not sh:
         return []
     done = []
+    # ---- private types that were renamed and/or moved (hoisted out of a function, nested into one): same crate, same kind and
+    # the same field types, unique in both directions -> the baseline path is restored everywhere it is spelled
+    base_adts = sh.get("adts", {})
+    miss_a = [a for a in base_adts if a not in prog.adts and a.split("::")[0] in prog.crates]
+    new_a = [a for a in prog.adts if a not in base_adts and a.split("::")[0] in prog.crates]
+    aren = {}
+    if miss_a and new_a:
+        def shape_of(path, variants):
+            return tuple(tuple(str(t).replace(path, "Self") for t in v) for v in variants)
+        bshape = {a: shape_of(a, [[x[1] for x in bv] for bv in base_adts[a]]) for a in miss_a}
+        nshape = {a: shape_of(a, [[f["ty"] for f in v["fields"]] for v in prog.adts[a].get("variants", [])]) for a in new_a}
+        for k in miss_a:
+            cs = [n for n in new_a if n.split("::")[0] == k.split("::")[0] and nshape[n] == bshape[k] and bshape[k] and any(bshape[k])]
+            back = [k2 for k2 in miss_a if cs and bshape[k2] == nshape[cs[0]] and k2.split("::")[0] == k.split("::")[0]]
+            if len(cs) == 1 and back == [k] and "Public" not in str(prog.adts[cs[0]].get("vis")):
+                aren[cs[0]] = k
+    if aren:
+        import re as _re
+        pats = [(_re.compile(r"(?<![A-Za-z0-9_])" + _re.escape(n) + r"(?![A-Za-z0-9_])"), k) for n, k in sorted(aren.items(), key=lambda x: -len(x[0]))]
+
+        def rep_s(x):
+            for pat, k in pats:
+                if pat.pattern and pat.search(x):
+                    x = pat.sub(k, x)
+            return x
+
+        def deep(o):
+            if isinstance(o, dict):
+                if "f" in o and "k" not in o and "l" in o:
+                    return o
+                return {(rep_s(kk) if isinstance(kk, str) else kk): deep(v) for kk, v in o.items()}
+            if isinstance(o, list):
+                return [deep(x) for x in o]
+            if isinstance(o, str):
+                return rep_s(o)
+            return o
+        short = {n.rsplit("::", 1)[-1] for n in aren}
+        for pth in list(prog.fns):
+            f = prog.fns[pth]
+            # only functions that can mention the type at all are rewritten (cheap pre-filter on the serialised path / signature)
+            blob_hit = any(sn in pth or sn in str(f.get("sig")) for sn in short) or any(sn in str(loc.get("ty")) for loc in f.get("locals", []) for sn in short)
+            if not blob_hit:
+                continue
+            f2 = deep(f)
+            del prog.fns[pth]
+            f2["path"] = rep_s(pth)
+            prog.fns[f2["path"]] = f2
+        for n, k in aren.items():
+            prog.adts[k] = deep(prog.adts.pop(n))
+            done.append(f"type {n} -> {k}")
+        prog.impls[:] = [deep(i) for i in prog.impls]
     # ---- struct fields
     fren = {}
     for a, base in sh.get("adts", {}).items():
